@@ -1007,6 +1007,7 @@ fn check_items(ctx: &mut Ctx, spec: &FileSpec, file: &SlurmFile, origin: &str, t
 fn part_json(ctx: &mut Ctx) {
     let n = ctx.stage_budget((5_000, 2_000_000), 3_000, if ctx.tier == Tier::Thorough { 32 } else { 8 }, 0);
     let mut rng = ctx.rng("json");
+    let mut jrng = ctx.rng("json-escapes");
     let mut evals = 0u64;
     let (mut with_aspa, mut hand_ok, mut hand_rej, mut hand_eq) = (0u64, 0u64, 0u64, 0u64);
     for i in 0..n {
@@ -1066,6 +1067,45 @@ fn part_json(ctx: &mut Ctx) {
             Ok(back) if back == file => {}
             other => {
                 ctx.violation("C15:json-roundtrip:from_reader", "from_reader(to_string(file)) != file", json!({"json": compact, "error": other.err().map(|e| e.to_string())}));
+            }
+        }
+        // other JSON transports of the same document: strings that carry escapes (a deserialiser
+        // cannot lend such a string out of its input), serde_json::Value, the token format
+        {
+            let escaped = escape_json_strings(&compact, &mut jrng);
+            evals += 1;
+            match SlurmFile::from_str(&escaped) {
+                Ok(back) if back == file => {}
+                other => ctx.violation(
+                    "C15:json-roundtrip:escaped-strings",
+                    "the file's own JSON with its string contents written as JSON escapes (\\/ and \\uXXXX) does not parse back to an equal file",
+                    json!({"json": escaped, "error": other.err().map(|e| e.to_string())}),
+                ),
+            }
+            evals += 1;
+            match serde_json::to_value(&file).map_err(|e| e.to_string()).and_then(|v| serde_json::from_value::<SlurmFile>(v).map_err(|e| e.to_string())) {
+                Ok(back) if back == file => {}
+                other => ctx.violation(
+                    "C15:json-roundtrip:value",
+                    "serde_json::from_value(to_value(file)) != file",
+                    json!({"json": compact, "error": other.err()}),
+                ),
+            }
+            if let Ok(tok) = crate::serde_tok::to_tok(&file, true) {
+                for de in crate::serde_tok::De::all(true) {
+                    if de.structs_as_seq {
+                        continue; // JSON presents objects as maps
+                    }
+                    evals += 1;
+                    match crate::serde_tok::from_tok::<SlurmFile>(&tok, de) {
+                        Ok(back) if back == file => {}
+                        other => ctx.violation(
+                            "C15:json-roundtrip:string-transport",
+                            &format!("the file's serde form does not read back over a human-readable format with {:?} strings", de.strings),
+                            json!({"json": compact, "error": other.err().map(|e| e.to_string())}),
+                        ),
+                    }
+                }
             }
         }
         let mut w = Vec::new();
@@ -1205,4 +1245,46 @@ impl std::io::Write for ShortSink {
     fn flush(&mut self) -> std::io::Result<()> {
         Ok(())
     }
+}
+
+/// The same JSON document with (some of) the characters inside its string
+/// literals written as escapes: `/` as `\/`, letters and digits as `\uXXXX`.
+/// Existing escapes are left alone.
+fn escape_json_strings(text: &str, rng: &mut crate::core::Rng) -> String {
+    let mut out = String::with_capacity(text.len() * 2);
+    let mut in_str = false;
+    let mut chars = text.chars();
+    while let Some(c) = chars.next() {
+        if !in_str {
+            if c == '"' {
+                in_str = true;
+            }
+            out.push(c);
+            continue;
+        }
+        match c {
+            '"' => {
+                in_str = false;
+                out.push(c);
+            }
+            '\\' => {
+                out.push(c);
+                if let Some(n) = chars.next() {
+                    out.push(n);
+                    if n == 'u' {
+                        // the four hex digits belong to the escape
+                        for _ in 0..4 {
+                            if let Some(h) = chars.next() {
+                                out.push(h);
+                            }
+                        }
+                    }
+                }
+            }
+            '/' => out.push_str("\\/"),
+            c if c.is_ascii_alphanumeric() && rng.chance(1, 3) => out.push_str(&format!("\\u{:04x}", c as u32)),
+            c => out.push(c),
+        }
+    }
+    out
 }
